@@ -1,9 +1,738 @@
-"""C11 (continued): further contracts, written against the conventions of contracts/C11.py.
+"""C11 (continued): the provider methods behind the repository-changing operations - validate before write.
+
+For ALL arguments and ALL repository states (exceptions: the two SHAPE notes at DeleteClass / ModifyClass):
+  (1) on every exit by CIMError no store of the repository has been written,
+  (2) the status code is the documented one for the documented situation,
+  (3) on success exactly the documented writes happened (one create per involved namespace, one delete per copy, ...).
+Device: ghost WRITE COUNTERS on the provider (self._g_creates/_g_updates/_g_deletes, _g_cwrites, _g_ns_added/_g_ns_removed)
+that the callee contracts of the store operations increment (reached as caller_self); where the refusal of a store has to be
+excluded, a ghost PRESENCE map self._g_present (namespace -> "the instance store of that namespace holds the instance the
+request is about") or the abstract class store g_cstore._data (C10 view: name -> class).  Namespace names are compared as
+given: names differing only in case are outside the model (known findings of C10/C11, bounded stand-in).
+Helpers that read only (class resolution, association test, reference namespaces, deepcopy) are trusted stubs with notes;
+the WRITE ORDER and the status-code decisions are inside the functions under contract.
+REFUTED_ON_THE_UNCHANGED_TREE (not loaded): the same contracts without the assumption that hides a genuine violation.
 
 Shared definitions can be imported from the module contracts_C11 (the file contracts/C11.py while it is being loaded)."""
 from pyvc.contract import Contract, Raises, LoopSpec
 from pyvc.values import *   # noqa
 
 CONTRACTS = []
+REFUTED_ON_THE_UNCHANGED_TREE = []      # not loaded: genuine violations of the property (see the notes of each entry)
 CLASS_SPECS = {}
 LEMMAS = []
+
+K = 'pywbem_mock/_instancewriteprovider.py::InstanceWriteProvider.'
+S = 'pywbem_mock/_inmemoryrepository.py::'
+
+# ---- write counters: every write access to an object store of the repository is counted on the provider
+PROV = Obj('InstanceWriteProvider', cimrepository=Obj('InMemoryRepository'), _g_creates=Int, _g_updates=Int, _g_deletes=Int,
+           _g_present=MapOf('str', 'int'))      # _g_present: see DeleteInstance / create_multi_namespace_instance below
+CSTORE = Obj('InMemoryObjectStore', _data=MapOf('str', ('ref', 'CIMClass')))
+NOWRITE = ('no-store-was-written-when-the-call-raises',
+           'self._g_creates == old(self._g_creates) and self._g_updates == old(self._g_updates) and '
+           'self._g_deletes == old(self._g_deletes)')
+NOWRITE_OK = ('no-store-is-written', NOWRITE[1])
+CLASS_SPECS.update({'CIMClass': {'classname': Str}})
+
+get_cstore_g = Contract(S + 'InMemoryRepository.get_class_store', returns_ghost='g_cstore', trusted=True,
+                        notes='the class store of the namespace (dictionary lookup; the namespace exists)')
+cls_get = Contract(S + 'InMemoryObjectStore.get', returns=Ref('CIMClass'),
+                   ensures=[('present', 'name in self._data')],
+                   raises={'KeyError': Raises(post=[('only-when-absent', 'name not in self._data')])},
+                   notes='proved under C10')
+is_assoc = Contract(K + 'is_association', returns=Bool, trusted=True,
+                    notes='value of the Association qualifier of the class (no repository access)')
+validate_endpoint = Contract(K + 'validate_reference_property_endpoint_exists',
+                             raises={'CIMError': Raises(post=[('code', 'exc.status_code == CIM_ERR_INVALID_PARAMETER')])},
+                             notes='reads the instance stores only; proved below')
+NS_DISTINCT = ('forall(lambda a: forall(lambda b: implies(a != b, {L}[a] != {L}[b]), 0, len({L})), 0, len({L}))')
+find_ns = Contract(K + 'find_multins_association_ref_namespaces', returns=ListOf('str'), trusted=True,
+                   ensures=[('distinct-namespaces-other-than-the-target',
+                             NS_DISTINCT.format(L='(result + [target_namespace])'))],
+                   raises={'CIMError': Raises(post=[('code', 'exc.status_code == CIM_ERR_INVALID_CLASS')])},
+                   notes='reads class and instance store only; documented: "list of namespaces in which this association '
+                         'participates excluding the target namespace" (built as list(set(...)): no duplicates); '
+                         'CIM_ERR_INVALID_CLASS from get_required_class')
+CODES = '(CIM_ERR_INVALID_PARAMETER, CIM_ERR_ALREADY_EXISTS, CIM_ERR_INVALID_CLASS)'
+create_multi = Contract(K + 'create_multi_namespace_instance', returns=Ref('CIMInstanceName'),
+                        requires=[('the-namespaces-are-distinct-and-exclude-the-target',
+                                   NS_DISTINCT.format(L='(assoc_namespaces + [orig_ns])'))],
+                        modifies=['self._g_creates', 'self._g_present'],
+                        ensures=[('one-create-per-namespace',
+                                  'self._g_creates == old(self._g_creates) + old(len(assoc_namespaces)) + 1')],
+                        raises={'CIMError': Raises(post=[('nothing-created', 'self._g_creates == old(self._g_creates)'),
+                                                         ('code', f'exc.status_code in {CODES}')])},
+                        notes='proved below')
+new_path = Contract(K + 'create_new_instance_path',
+                    raises={'CIMError': Raises(post=[('code', 'exc.status_code == CIM_ERR_INVALID_PARAMETER')])},
+                    notes='sets new_instance.path from the key properties (no repository access); proved below')
+add_new = Contract(K + 'add_new_instance', modifies=['self._g_creates'],
+                   ensures=[('one-create', 'self._g_creates == old(self._g_creates) + 1')],
+                   raises={'CIMError': Raises(post=[('nothing-created', 'self._g_creates == old(self._g_creates)'),
+                                                    ('code', 'exc.status_code == CIM_ERR_ALREADY_EXISTS')])},
+                   notes='proved below')
+
+CONTRACTS.append(Contract(
+    K + 'CreateInstance',
+    params={'self': PROV, 'namespace': Str, 'new_instance': Ref('CIMInstance')},
+    ghosts={'g_cstore': CSTORE},
+    # documented: "The creation class of the new instance exists in the namespace" (checked by the dispatcher, C10)
+    requires=['new_instance.classname in g_cstore._data'],
+    callees={'get_class_store': get_cstore_g, 'InMemoryObjectStore.get': cls_get, 'is_association': is_assoc,
+             'validate_reference_property_endpoint_exists': validate_endpoint,
+             'find_multins_association_ref_namespaces': find_ns, 'create_multi_namespace_instance': create_multi,
+             'create_new_instance_path': new_path, 'add_new_instance': add_new},
+    loops={1: LoopSpec(target='pn', types={'pn': Str, 'prop': Ref('CIMProperty')})},
+    # g_n: the number of OTHER namespaces named by the reference properties of an association instance (0 otherwise)
+    ghost_code={'assoc_namespaces = self.find_multins_association_ref_namespaces(new_instance, namespace)':
+                'g_n = len(assoc_namespaces)'},
+    ghost_init={'g_n': '0'},
+    ensures=[('one-create-per-involved-namespace-and-nothing-else',
+              'self._g_creates == old(self._g_creates) + 1 + g_n and self._g_updates == old(self._g_updates) and '
+              'self._g_deletes == old(self._g_deletes)')],
+    raises={'CIMError': Raises(post=[NOWRITE,
+                                     ('documented-status-codes',
+                                      f'exc.status_code in {CODES}')])},
+))
+
+# ---- the store operations as seen from a provider method: each successful write is counted once on the provider
+# (ghost counters of the function under contract, reached as caller_self); a refused write counts nothing
+ISTORE = Obj('InMemoryObjectStore')
+get_istore = Contract(S + 'InMemoryRepository.get_instance_store', returns=ISTORE, trusted=True,
+                      notes='the instance store of the namespace (dictionary lookup; the namespace exists)')
+
+
+def counted(op, counter, refusal):
+    same = f'caller_self.{counter} == old(caller_self.{counter})'
+    return Contract(S + 'InMemoryObjectStore.' + op, modifies=[f'caller_self.{counter}'],
+                    ensures=[('one-write-counted', f'caller_self.{counter} == old(caller_self.{counter}) + 1')],
+                    raises={refusal: Raises(post=[('refused-write-changes-nothing', same)])},
+                    notes=f'proved under C10 ({op}: store changed at exactly this name / {refusal} and store unchanged); '
+                          f'the counter is a ghost of this property')
+
+
+st_create = counted('create', '_g_creates', 'ValueError')
+st_exists = Contract(S + 'InMemoryObjectStore.object_exists', returns=Bool, notes='proved under C10 (no write)')
+
+CONTRACTS.append(Contract(
+    K + 'add_new_instance',
+    params={'self': PROV, 'new_instance': Ref('CIMInstance')},
+    callees={'get_instance_store': get_istore, 'InMemoryObjectStore.create': st_create},
+    ensures=[('exactly-one-create', 'self._g_creates == old(self._g_creates) + 1 and '
+              'self._g_updates == old(self._g_updates) and self._g_deletes == old(self._g_deletes)')],
+    raises={'CIMError': Raises(post=[NOWRITE, ('refusal-of-the-store-is-ALREADY_EXISTS',
+                                               'exc.status_code == CIM_ERR_ALREADY_EXISTS')])},
+))
+
+# ---- helpers that only read: their CIMError is CIM_ERR_INVALID_PARAMETER and no store operation that writes is reached
+CLASS_SPECS.update({'CIMInstanceName': {'host': Opt(Str), 'classname': Str, '_classname': Str},
+                    'CIMProperty': {'value': Opt(Ref('CIMInstanceName'))}})
+from_instance = Contract('pywbem/_cim_obj.py::CIMInstanceName.from_instance', returns=Ref('CIMInstanceName'), trusted=True,
+                         ensures=[('namespace-as-given', 'result.namespace == namespace')],
+                         raises={'ValueError': Raises()},
+                         notes='builds the path from the key properties; strict=True: ValueError if a key property is missing')
+CONTRACTS.append(Contract(
+    K + 'create_new_instance_path',
+    params={'creation_class': Ref('CIMClass'), 'new_instance': Ref('CIMInstance'), 'namespace': Str},
+    callees={'from_instance': from_instance},
+    ensures=[('path-in-the-target-namespace', 'new_instance.path.namespace == namespace')],
+    raises={'CIMError': Raises(post=[('missing-key-is-INVALID_PARAMETER', 'exc.status_code == CIM_ERR_INVALID_PARAMETER')])},
+))
+
+get_istore_ke = Contract(S + 'InMemoryRepository.get_instance_store', returns=ISTORE, trusted=True,
+                         raises={'KeyError': Raises()}, notes='KeyError: the namespace does not exist')
+CONTRACTS.append(Contract(
+    K + 'validate_instance_exists',
+    params={'self': PROV, 'path': Opt(Ref('CIMInstanceName'))},
+    callees={'get_instance_store': get_istore_ke, 'InMemoryObjectStore.object_exists': st_exists},
+    ensures=[NOWRITE_OK],
+    raises={'CIMError': Raises(post=[NOWRITE, ('unknown-namespace-is-INVALID_PARAMETER',
+                                               'exc.status_code == CIM_ERR_INVALID_PARAMETER')])},
+))
+inst_exists = Contract(K + 'validate_instance_exists', returns=Bool,
+                       raises={'CIMError': Raises(post=[('code', 'exc.status_code == CIM_ERR_INVALID_PARAMETER')])},
+                       notes='proved above (no write)')
+CONTRACTS.append(Contract(
+    K + 'validate_reference_property_endpoint_exists',
+    params={'self': PROV, 'prop': Ref('CIMProperty')},
+    requires=['prop.value is not None'],
+    callees={'validate_instance_exists': inst_exists},
+    ensures=[NOWRITE_OK],
+    raises={'CIMError': Raises(post=[NOWRITE, ('always-INVALID_PARAMETER', 'exc.status_code == CIM_ERR_INVALID_PARAMETER')])},
+))
+
+# ---- DeleteInstance.  Besides the counters, the ghost map self._g_present has as its domain the namespaces whose instance
+# store holds the instance named by the request path (same class name and keybindings): the target namespace (documented:
+# "The instance to be deleted exists in the namespace") and, for a multi-namespace association, its shadow copies.
+PROV_D = PROV
+NSSTORE = Obj('InMemoryObjectStore', _g_ns=Str)
+get_istore_ns = Contract(S + 'InMemoryRepository.get_instance_store', returns=NSSTORE, trusted=True,
+                         ensures=[('store-of-that-namespace', 'result._g_ns == namespace')],
+                         notes='the instance store of the namespace (namespace names compared as given)')
+PRESENT_SAME = 'same_except(caller_self._g_present, old(caller_self._g_present))'
+ns_delete = Contract(
+    S + 'InMemoryObjectStore.delete',
+    requires=[('the-path-handed-to-a-store-names-the-namespace-of-that-store', 'name.namespace == self._g_ns'),
+              ('the-path-handed-to-a-store-has-the-keys-of-the-request-path', 'name == caller_InstanceName')],
+    modifies=['caller_self._g_deletes', 'caller_self._g_present'],
+    ensures=[('one-delete-counted', 'caller_self._g_deletes == old(caller_self._g_deletes) + 1'),
+             ('was-present-now-absent', 'old(self._g_ns in caller_self._g_present) and self._g_ns not in caller_self._g_present '
+              'and same_except(caller_self._g_present, old(caller_self._g_present), self._g_ns)')],
+    raises={'KeyError': Raises(post=[('only-when-absent', 'old(self._g_ns not in caller_self._g_present)'),
+                                     ('refused-delete-changes-nothing',
+                                      f'caller_self._g_deletes == old(caller_self._g_deletes) and {PRESENT_SAME}')])},
+    notes='proved under C10 (delete: removed exactly this name / KeyError exactly when absent, store unchanged)')
+find_ns_g = Contract(K + 'find_multins_association_ref_namespaces', returns_ghost='g_refns', trusted=True,
+                     raises={'CIMError': Raises(post=[('code', 'exc.status_code == CIM_ERR_INVALID_CLASS')])},
+                     notes=find_ns.notes)
+path_copy = Contract('pywbem/_cim_obj.py::CIMInstanceName.copy', returns=Ref('CIMInstanceName'), trusted=True,
+                     ensures=[('a-new-equal-path', 'fresh(result) and result == self and result.namespace == self.namespace')])
+ALL_NS = '(g_refns + [InstanceName.namespace])'
+DELETE_REQUIRES = [
+    # documented: the creation class and the instance exist in the namespace (checked by the dispatcher, C10)
+    'InstanceName.classname in g_cstore._data',
+    'InstanceName.namespace in self._g_present',
+    # find_multins_association_ref_namespaces: "excluding the target namespace", built as list(set(...))
+    f'forall(lambda a: forall(lambda b: implies(a != b, {ALL_NS}[a] != {ALL_NS}[b]), 0, len(g_refns) + 1), 0, len(g_refns) + 1)']
+SHADOWS_EXIST = f'forall(lambda k: {ALL_NS}[k] in self._g_present, 0, len(g_refns) + 1)'
+DELETE = dict(
+    params={'self': PROV_D, 'InstanceName': Ref('CIMInstanceName')},
+    ghosts={'g_cstore': CSTORE, 'g_refns': ListOf('str')},
+    callees={'get_class_store': get_cstore_g, 'InMemoryObjectStore.get': cls_get, 'is_association': is_assoc,
+             'find_multins_association_ref_namespaces': find_ns_g, 'get_instance_store': get_istore_ns,
+             'InMemoryObjectStore.delete': ns_delete, 'copy': path_copy},
+    ghost_code={'multi_ns = self.find_multins_association_ref_namespaces(InstanceName, namespace)': 'g_n = len(multi_ns)'},
+    ghost_init={'g_n': '0', 'g_d0': 'self._g_deletes'},
+    loops={1: LoopSpec(target='ns', types={'ns': Str, 'instance_store': NSSTORE},
+                       modifies=['self._g_deletes', 'self._g_present', '$fields:CIMInstanceName.namespace'],
+                       invariant=[('one-delete-per-namespace-so-far', 'self._g_deletes == g_d0 + _i'),
+                                  ('the-remaining-namespaces-still-hold-their-copy',
+                                   'forall(lambda k: multi_ns[k] in self._g_present, _i, len(multi_ns))'),
+                                  ('the-namespaces-done-hold-it-no-more',
+                                   'forall(lambda k: multi_ns[k] not in self._g_present, 0, _i)'),
+                                  ('the-target-namespace-comes-last',
+                                   'implies(_i == len(multi_ns), namespace not in self._g_present)')])},
+    ensures=[('one-delete-per-involved-namespace-and-nothing-else',
+              'self._g_deletes == old(self._g_deletes) + 1 + g_n and self._g_creates == old(self._g_creates) and '
+              'self._g_updates == old(self._g_updates)'),
+             ('the-instance-is-gone-from-the-target-namespace', 'old(InstanceName.namespace) not in self._g_present')],
+    raises={'CIMError': Raises(post=[NOWRITE, ('code', 'exc.status_code == CIM_ERR_INVALID_CLASS')])},
+)
+CONTRACTS.append(Contract(K + 'DeleteInstance', requires=DELETE_REQUIRES + [SHADOWS_EXIST], **DELETE))
+_loose = LoopSpec(target='ns', types=DELETE['loops'][1].types,
+                  modifies=['self._g_deletes', '$fields:CIMInstanceName.namespace'],
+                  invariant=[DELETE['loops'][1].invariant[0]])
+_loose_delete = Contract(ns_delete.key, requires=ns_delete.requires, modifies=['caller_self._g_deletes'],
+                         ensures=ns_delete.ensures[:1], notes=ns_delete.notes,
+                         raises={'KeyError': Raises(post=[('only-when-absent', 'self._g_ns not in caller_self._g_present')])})
+REFUTED_ON_THE_UNCHANGED_TREE.append(Contract(
+    K + 'DeleteInstance', requires=DELETE_REQUIRES[:2], label='shadow-copies-not-assumed',
+    **dict(DELETE, loops={1: _loose}, ensures=DELETE['ensures'][:1],
+           callees=dict(DELETE['callees'], **{'InMemoryObjectStore.delete': _loose_delete}), notes=(
+        'without the assumption that every shadow copy exists: KeyError (not a CIMError) escapes from the delete loop after '
+        'the copies in the namespaces before the missing one have been deleted - the known finding '
+        'known:DeleteInstance-multi-namespace-shadow-missing-partial-delete of the bounded stand-in (refuted obligation: '
+        'raises:KeyError@instance_store.delete(instance_name_copy))'))))
+
+# ---- create_multi_namespace_instance: every check (class exists in every namespace, path can be built, instance absent
+# in every namespace) is finished before the first write, so that no write can be refused and no CIMError leaves a partial
+# set of copies behind.  self._g_present: the namespaces whose instance store holds an instance under the path that
+# CIMInstanceName.from_instance() derives from new_instance (class name and key properties) for that namespace.
+ns_exists = Contract(S + 'InMemoryObjectStore.object_exists', returns=Bool,
+                     requires=[('the-path-handed-to-a-store-names-the-namespace-of-that-store', 'name.namespace == self._g_ns')],
+                     ensures=[('membership', 'result == (self._g_ns in caller_self._g_present)')],
+                     notes='proved under C10 (membership, no write)')
+ns_create = Contract(
+    S + 'InMemoryObjectStore.create',
+    requires=[('the-path-handed-to-a-store-names-the-namespace-of-that-store', 'name.namespace == self._g_ns')],
+    modifies=['caller_self._g_creates', 'caller_self._g_present'],
+    ensures=[('one-create-counted', 'caller_self._g_creates == old(caller_self._g_creates) + 1'),
+             ('was-absent-now-present', 'old(self._g_ns not in caller_self._g_present) and self._g_ns in caller_self._g_present '
+              'and same_except(caller_self._g_present, old(caller_self._g_present), self._g_ns)')],
+    raises={'ValueError': Raises(post=[('only-when-present', 'old(self._g_ns in caller_self._g_present)'),
+                                       ('refused-create-changes-nothing',
+                                        f'caller_self._g_creates == old(caller_self._g_creates) and {PRESENT_SAME}')])},
+    notes='proved under C10 (create: added exactly this name / ValueError exactly when present, store unchanged)')
+PATH_NS = 'new_instance.path.namespace'
+ADD_NEW_PRESENCE = dict(
+    ensures=[('exactly-one-create', 'self._g_creates == old(self._g_creates) + 1 and '
+              'self._g_updates == old(self._g_updates) and self._g_deletes == old(self._g_deletes)'),
+             ('was-absent-now-present-in-the-namespace-of-the-path',
+              f'old({PATH_NS} not in self._g_present) and {PATH_NS} in self._g_present and '
+              f'same_except(self._g_present, old(self._g_present), {PATH_NS})')],
+    raises={'CIMError': Raises(post=[NOWRITE, ('refusal-of-the-store-is-ALREADY_EXISTS', 'exc.status_code == CIM_ERR_ALREADY_EXISTS'),
+                                     ('only-when-present', f'old({PATH_NS} in self._g_present) and '
+                                      'same_except(self._g_present, old(self._g_present))')])})
+CONTRACTS.append(Contract(
+    K + 'add_new_instance', label='presence',
+    params={'self': PROV_D, 'new_instance': Ref('CIMInstance')},
+    callees={'get_instance_store': get_istore_ns, 'InMemoryObjectStore.create': ns_create},
+    **ADD_NEW_PRESENCE))
+
+add_new_p = Contract(K + 'add_new_instance', modifies=['self._g_creates', 'self._g_present'], notes='proved above [presence]',
+                     **ADD_NEW_PRESENCE)
+required_class = Contract(K + 'get_required_class', returns=Ref('CIMClass'),
+                          raises={'CIMError': Raises(post=[('code', 'exc.status_code == CIM_ERR_INVALID_CLASS')])},
+                          notes='reads the class store only; proved below')
+CONTRACTS.append(Contract(
+    K + 'create_multi_namespace_instance',
+    params={'self': PROV_D, 'new_instance': Ref('CIMInstance'), 'orig_ns': Str, 'assoc_namespaces': ListOf('str')},
+    # find_multins_association_ref_namespaces: "excluding the target namespace", built as list(set(...))
+    requires=[NS_DISTINCT.format(L='(assoc_namespaces + [orig_ns])')],
+    kinds={'new_instance_paths': ('str', ('ref', 'CIMInstanceName'), True)},
+    callees={'get_required_class': required_class, 'from_instance': from_instance, 'get_instance_store': get_istore_ns,
+             'InMemoryObjectStore.object_exists': ns_exists, 'add_new_instance': add_new_p, 'copy': path_copy},
+    ghost_init={'g_c0': 'self._g_creates'},
+    loops={
+        1: LoopSpec(target='ns', types={'ns': Str, 'creation_class': Ref('CIMClass')}),
+        2: LoopSpec(target='ns', types={'ns': Str, 'inst_path': Ref('CIMInstanceName')}, modifies=['new_instance_paths'],
+                    invariant=[('one-path-per-namespace-so-far', 'len(list(new_instance_paths)) == _i'),
+                               ('namespaces-done-are-keys',
+                                'forall(lambda k: assoc_namespaces[k] in new_instance_paths, 0, _i)'),
+                               ('namespaces-to-come-are-not-yet-keys',
+                                'forall(lambda k: assoc_namespaces[k] not in new_instance_paths, _i, len(assoc_namespaces))'),
+                               ('each-path-names-its-namespace',
+                                'forall(lambda s: implies(s in new_instance_paths, new_instance_paths[s].namespace == s), "str")'),
+                               ('the-target-namespace-comes-last', 'assoc_namespaces[len(assoc_namespaces) - 1] == orig_ns'),
+                               ('the-last-namespace-done-is-a-key',
+                                'implies(_i > 0, assoc_namespaces[_i - 1] in new_instance_paths)')]),
+        3: LoopSpec(target='(ns, path)', types={'ns': Str, 'path': Ref('CIMInstanceName'), 'instance_store': NSSTORE},
+                    invariant=[('absent-in-every-namespace-checked-so-far',
+                                'forall(lambda k: list(new_instance_paths)[k] not in self._g_present, 0, _i)')]),
+        4: LoopSpec(target='(ns, path)', types={'ns': Str, 'path': Ref('CIMInstanceName'), 'instance_store': NSSTORE},
+                    modifies=['self._g_creates', 'self._g_present', '$fields:CIMInstance.path', '$fields:CIMInstance._path'],
+                    invariant=[('one-create-per-namespace-so-far', 'self._g_creates == g_c0 + _i'),
+                               ('still-absent-in-the-namespaces-to-come',
+                                'forall(lambda k: list(new_instance_paths)[k] not in self._g_present, _i, _n)')]),
+    },
+    ensures=[('one-create-per-namespace-and-nothing-else',
+              'self._g_creates == old(self._g_creates) + old(len(assoc_namespaces)) + 1 and '
+              'self._g_updates == old(self._g_updates) and self._g_deletes == old(self._g_deletes)'),
+             ('returns-the-path-in-the-target-namespace', 'result.namespace == orig_ns')],
+    raises={'CIMError': Raises(post=[NOWRITE, ('documented-status-codes', f'exc.status_code in {CODES}')])},
+))
+
+# ---- get_required_class: reads the class store only; a missing class is CIM_ERR_INVALID_CLASS
+cls_get_copy = Contract(S + 'InMemoryObjectStore.get', returns=Ref('CIMClass'), raises={'KeyError': Raises()},
+                        notes='proved under C10')
+get_cstore_plain = Contract(S + 'InMemoryRepository.get_class_store', returns=Obj('InMemoryObjectStore'), trusted=True,
+                            notes=get_cstore_g.notes)
+CONTRACTS.append(Contract(
+    K + 'get_required_class',
+    params={'self': PROV, 'instance': Ref('CIMInstance'), 'namespace': Str},
+    callees={'get_class_store': get_cstore_plain, 'InMemoryObjectStore.get': cls_get_copy},
+    ensures=[NOWRITE_OK],
+    raises={'CIMError': Raises(post=[NOWRITE, ('missing-class-is-INVALID_CLASS', 'exc.status_code == CIM_ERR_INVALID_CLASS')])},
+))
+
+# ---- modify_multi_namespace_instance
+ns_update = Contract(
+    S + 'InMemoryObjectStore.update',
+    requires=[('the-path-handed-to-a-store-names-the-namespace-of-that-store', 'name.namespace == self._g_ns')],
+    modifies=['caller_self._g_updates'],
+    ensures=[('one-update-counted', 'caller_self._g_updates == old(caller_self._g_updates) + 1'),
+             ('was-present', 'self._g_ns in caller_self._g_present')],
+    raises={'KeyError': Raises(post=[('only-when-absent', 'self._g_ns not in caller_self._g_present'),
+                                     ('refused-update-changes-nothing', 'caller_self._g_updates == old(caller_self._g_updates)')])},
+    notes='proved under C10 (update: replaced exactly this name / KeyError exactly when absent, store unchanged)')
+# "copy() returns a NEW object": every path copied gets the next number of a ghost counter, so that the copy made in one
+# iteration is none of the paths stored in earlier iterations
+CLASS_SPECS['CIMInstanceName'].update({'_g_serial': Int})
+inst_copy = Contract('pywbem/_cim_obj.py::CIMInstance.copy', returns=Ref('CIMInstance'), trusted=True,
+                     modifies=['caller_self._g_copies'],
+                     ensures=[('a-new-instance-with-a-new-equal-path', 'fresh(result) and fresh(result.path) and '
+                               'result.path == self.path and result.path.namespace == self.path.namespace'),
+                              ('new-object', 'caller_self._g_copies == old(caller_self._g_copies) + 1 and '
+                               'result.path._g_serial == caller_self._g_copies')])
+PROV_M = Obj('InstanceWriteProvider', **dict(PROV.args[1], _g_copies=Int))
+MPATHS = 'modified_instance_paths'
+CONTRACTS.append(Contract(
+    K + 'modify_multi_namespace_instance',
+    params={'self': PROV_M, 'modified_instance': Ref('CIMInstance'), 'assoc_namespaces': ListOf('str')},
+    # find_multins_association_ref_namespaces: "excluding the target namespace", built as list(set(...))
+    requires=[NS_DISTINCT.format(L='(assoc_namespaces + [modified_instance.path.namespace])')],
+    # NocaseDict() "used to keep dict order": an insertion-ordered map from the namespace names as given
+    kinds={MPATHS: ('str', ('ref', 'CIMInstanceName'), True)},
+    callees={'get_required_class': required_class, 'get_instance_store': get_istore_ns, 'CIMInstance.copy': inst_copy,
+             'CIMInstanceName.copy': path_copy, 'InMemoryObjectStore.object_exists': ns_exists,
+             'InMemoryObjectStore.update': ns_update},
+    ghost_init={'g_u0': 'self._g_updates'},
+    loops={
+        1: LoopSpec(target='ns', types={'ns': Str, '_': Ref('CIMClass')}),
+        2: LoopSpec(target='ns', types={'ns': Str, 'modified_path': Ref('CIMInstanceName')},
+                    modifies=[MPATHS, 'self._g_copies', '$fields:CIMInstanceName.namespace'],
+                    invariant=[('one-path-per-namespace-so-far', f'len({MPATHS}) == _i'),
+                               ('namespaces-done-are-keys', f'forall(lambda k: assoc_namespaces[k] in {MPATHS}, 0, _i)'),
+                               ('namespaces-to-come-are-not-yet-keys',
+                                f'forall(lambda k: assoc_namespaces[k] not in {MPATHS}, _i, len(assoc_namespaces))'),
+                               ('each-path-names-its-namespace',
+                                f'forall(lambda s: implies(s in {MPATHS}, {MPATHS}[s].namespace == s), "str")'),
+                               ('the-paths-stored-are-copies-made-earlier',
+                                f'forall(lambda s: implies(s in {MPATHS}, {MPATHS}[s]._g_serial <= self._g_copies), "str")')]),
+        3: LoopSpec(target='(ns, path)', types={'ns': Str, 'path': Ref('CIMInstanceName'), 'instance_store': NSSTORE},
+                    invariant=[('present-in-every-namespace-checked-so-far',
+                                f'forall(lambda k: list({MPATHS})[k] in self._g_present, 0, _i)')]),
+        4: LoopSpec(target='(ns, path)', types={'ns': Str, 'path': Ref('CIMInstanceName'), 'instance_store': NSSTORE},
+                    modifies=['self._g_updates', '$fields:CIMInstance.path', '$fields:CIMInstance._path'],
+                    invariant=[('one-update-per-namespace-so-far', 'self._g_updates == g_u0 + _i'),
+                               ('present-in-the-namespaces-to-come',
+                                f'forall(lambda k: list({MPATHS})[k] in self._g_present, _i, _n)')]),
+    },
+    ensures=[('one-update-per-namespace-and-nothing-else',
+              'self._g_updates == old(self._g_updates) + old(len(assoc_namespaces)) + 1 and '
+              'self._g_creates == old(self._g_creates) and self._g_deletes == old(self._g_deletes)')],
+    raises={'CIMError': Raises(post=[NOWRITE, ('documented-status-codes',
+                                               'exc.status_code in (CIM_ERR_INVALID_CLASS, CIM_ERR_NOT_FOUND)')])},
+))
+
+# ================================================================ MainProvider: class operations
+M = 'pywbem_mock/_mainprovider.py::MainProvider.'
+MAIN = Obj('MainProvider', cimrepository=Obj('InMemoryRepository'), providerdispatcher=Obj('ProviderDispatcher'),
+           _g_cwrites=Int, _g_ideletes=Int, _g_provider_failed=Bool)
+CLS_STORE = Obj('InMemoryObjectStore', _data=MapOf('str', ('ref', 'CIMClass')))
+validate_ns = Contract('pywbem_mock/_baseprovider.py::BaseProvider.validate_namespace', trusted=True,
+                       raises={'CIMError': Raises(post=[('code', 'exc.status_code == CIM_ERR_INVALID_NAMESPACE')])},
+                       notes='the namespace exists or CIM_ERR_INVALID_NAMESPACE (a dictionary lookup in the repository)')
+get_cstore_m = Contract(S + 'InMemoryRepository.get_class_store', returns_ghost='g_cstore', trusted=True, notes=get_cstore_g.notes)
+get_istore_m = Contract(S + 'InMemoryRepository.get_instance_store', returns=Obj('InMemoryObjectStore'), trusted=True,
+                        notes=get_istore.notes)
+get_qstore_m = Contract(S + 'InMemoryRepository.get_qualifier_store', returns=Obj('InMemoryObjectStore'), trusted=True)
+c_exists = Contract(S + 'InMemoryObjectStore.object_exists', returns=Bool,
+                    ensures=[('membership', 'result == (name in self._data)')], notes='proved under C10')
+CW = 'caller_self._g_cwrites'
+
+
+def class_write(op, refusal, was, now):
+    return Contract(S + 'InMemoryObjectStore.' + op, modifies=['self._data', CW],
+                    ensures=[('one-class-store-write-counted', f'{CW} == old({CW}) + 1'),
+                             ('written-at-exactly-this-name', f'old(name {was} self._data) and name {now} self._data and '
+                              'same_except(self._data, old(self._data), name)')],
+                    raises={refusal: Raises(post=[('refused-write-changes-nothing',
+                                                   f'old(name {"not in" if was == "in" else "in"} self._data) and {CW} == old({CW}) '
+                                                   'and same_except(self._data, old(self._data))')])},
+                    notes='proved under C10; the counter is a ghost of this property')
+
+
+c_create = class_write('create', 'ValueError', 'not in', 'in')
+c_update = class_write('update', 'KeyError', 'in', 'in')
+c_delete = class_write('delete', 'KeyError', 'in', 'not in')
+subclass_names = Contract(
+    M + '_get_subclass_names', returns=ListOf('str'), trusted=True,
+    ensures=[('names-of-classes-in-the-store',
+              'implies(classname in class_store._data, '
+              'forall(lambda k: (result + [classname])[k] in class_store._data, 0, len(result) + 1))'),
+             ('distinct-and-without-the-class-itself', NS_DISTINCT.format(L='(result + [classname])'))],
+    notes='reads the class store only: the names (keys of the store, each once) of the direct / all subclasses; '
+          '"The input classname is NOT included in the returned list"')
+subclass_list = Contract(
+    M + '_get_subclass_list_for_enums', returns=ListOf('str'), trusted=True,
+    raises={'CIMError': Raises(post=[('code', 'exc.status_code == CIM_ERR_INVALID_CLASS'),
+                                     ('only-for-a-missing-class', 'classname not in class_store._data')])},
+    notes='reads the class store only; documented: CIM_ERR_INVALID_CLASS if classname not in CIM repository; the NocaseList '
+          'it returns is modelled as a list of names (it only selects the instances to delete)')
+# (engine limit "filtering comprehension over a symbolic sequence": the instance store is given a concrete number of
+# instances - two, of which the filter selects none, one or both; the write order does not depend on that number)
+iter_instances = Contract(S + 'InMemoryObjectStore.iter_values', returns=TupleOf(Ref('CIMInstance'), Ref('CIMInstance')),
+                          trusted=True, notes='copies of the stored instances (no write); SHAPE: two instances in the namespace')
+disp_delete = Contract(
+    'pywbem_mock/_providerdispatcher.py::ProviderDispatcher.DeleteInstance', trusted=True,
+    modifies=['caller_self._g_ideletes', 'caller_self._g_provider_failed'],
+    ensures=[('one-instance-deleted', 'caller_self._g_ideletes == old(caller_self._g_ideletes) + 1 and '
+              'caller_self._g_provider_failed == old(caller_self._g_provider_failed)')],
+    raises={'CIMError': Raises(post=[('the-provider-refused', 'caller_self._g_ideletes == old(caller_self._g_ideletes) and '
+                                      'caller_self._g_provider_failed')])},
+    notes='the dispatcher and the (default or user-defined) provider behind it: deletes the instance (C10 / the contracts '
+          'above) or raises CIMError - the ghost flag records that a provider refused')
+CLS_NOWRITE = 'self._g_cwrites == old(self._g_cwrites) and self._g_ideletes == old(self._g_ideletes)'
+ALL_CLS = '(g_subs + [ClassName])'
+DELETE_CLASS = dict(
+    params={'self': MAIN, 'namespace': Str, 'ClassName': Str},
+    ghosts={'g_cstore': CLS_STORE},
+    callees={'validate_namespace': validate_ns, 'get_class_store': get_cstore_m, 'get_instance_store': get_istore_m,
+             'InMemoryObjectStore.object_exists': c_exists, '_get_subclass_names': subclass_names,
+             '_get_subclass_list_for_enums': subclass_list, 'iter_values': iter_instances, 'DeleteInstance': disp_delete,
+             'InMemoryObjectStore.delete': c_delete},
+    ghost_code={'classnames = self._get_subclass_names(ClassName, class_store, True)': 'g_n = len(classnames)'},
+    ghost_init={'g_n': '0', 'g_w0': 'self._g_cwrites'},
+    loops={1: LoopSpec(target='clname', types={'clname': Str, 'sub_clns': ListOf('str'),
+                                               'inst_paths': ListOf(('ref', 'CIMInstanceName')), 'ipath': Ref('CIMInstanceName')},
+                       modifies=['g_cstore._data', 'self._g_cwrites', 'self._g_ideletes', 'self._g_provider_failed'],
+                       invariant=[('one-class-deleted-per-name-so-far', 'self._g_cwrites == g_w0 + _i'),
+                                  ('no-provider-refused-so-far', 'self._g_provider_failed == g_f0'),
+                                  ('classes-to-come-are-still-there',
+                                   'forall(lambda k: classnames[k] in g_cstore._data, _i, len(classnames))'),
+                                  ('classes-done-are-gone', 'forall(lambda k: classnames[k] not in g_cstore._data, 0, _i)'),
+                                  ('the-class-itself-comes-last', 'classnames[len(classnames) - 1] == ClassName')]),
+           2: LoopSpec(target='ipath', types={'ipath': Ref('CIMInstanceName')},
+                       modifies=['self._g_ideletes', 'self._g_provider_failed'],
+                       invariant=[('no-provider-refused-so-far', 'self._g_provider_failed == g_f0')])},
+    ensures=[('the-class-and-all-its-subclasses-are-deleted-once-each',
+              'self._g_cwrites == old(self._g_cwrites) + g_n + 1 and ClassName not in g_cstore._data'),
+             ('no-provider-refused', 'self._g_provider_failed == old(self._g_provider_failed)')],
+)
+DELETE_CLASS['ghost_init']['g_f0'] = 'self._g_provider_failed'
+CONTRACTS.append(Contract(
+    M + 'DeleteClass',
+    raises={'CIMError': Raises(post=[
+        ('unless-a-provider-refused-nothing-was-written', f'implies(not self._g_provider_failed, {CLS_NOWRITE})'),
+        ('documented-status-codes',
+         'implies(not self._g_provider_failed, exc.status_code in (CIM_ERR_INVALID_NAMESPACE, CIM_ERR_NOT_FOUND))'),
+        ('NOT_FOUND-exactly-for-a-missing-class',
+         'implies(not self._g_provider_failed and exc.status_code == CIM_ERR_NOT_FOUND, old(ClassName not in g_cstore._data))')])},
+    requires=['not self._g_provider_failed'],
+    **DELETE_CLASS))
+_loose_cdelete = Contract(c_delete.key, modifies=['self._data', CW], ensures=c_delete.ensures[:1], notes=c_delete.notes)
+REFUTED_ON_THE_UNCHANGED_TREE.append(Contract(
+    M + 'DeleteClass', label='provider-refusal-not-excluded',
+    raises={'CIMError': Raises(post=[('nothing-was-written-when-the-call-raises', CLS_NOWRITE)])},
+    **dict(DELETE_CLASS, ensures=[], callees=dict(DELETE_CLASS['callees'], **{'InMemoryObjectStore.delete': _loose_cdelete}),
+           loops={1: LoopSpec(target='clname', types=DELETE_CLASS['loops'][1].types, modifies=DELETE_CLASS['loops'][1].modifies),
+                  2: LoopSpec(target='ipath', types=DELETE_CLASS['loops'][2].types, modifies=DELETE_CLASS['loops'][2].modifies)},
+           notes=(
+        'instances are deleted one by one through the provider dispatcher, classes one by one after them: a CIMError of a '
+        'provider (e.g. CIM_ERR_NAMESPACE_NOT_EMPTY of the CIM_Namespace provider) leaves the instances and subclasses deleted '
+        'so far deleted - known findings known:DeleteClass-CIM_Namespace-provider-partial-delete and '
+        'known:DeleteClass-multi-namespace-shadow-missing-partial-delete of the bounded stand-in (the loop invariants and the '
+        'refusal of the class store are left out here: only the exceptional postcondition is examined)'))))
+
+# ---- CreateClass / ModifyClass: every check, the copy and the resolution come before the single write
+CLASS_SPECS['CIMClass'].update({'superclass': Opt(Str)})
+validate_deps = Contract(M + '_validate_dependencies_exist', trusted=True,
+                         raises={'CIMError': Raises(post=[('code', 'exc.status_code == CIM_ERR_INVALID_PARAMETER')])},
+                         notes='reads the class store only (object_exists); a missing reference / embedded-instance class is '
+                               'CIM_ERR_INVALID_PARAMETER')
+resolve_class = Contract('pywbem_mock/_resolvermixin.py::ResolverMixin._resolve_class', trusted=True,
+                         caller_requires=[],
+                         requires=[('the-class-that-is-resolved-is-a-private-copy',
+                                    'fresh(new_class) and new_class is not caller_NewClass')],
+                         raises={'CIMError': Raises(post=[('code', 'exc.status_code in (CIM_ERR_INVALID_PARAMETER, '
+                                                           'CIM_ERR_INVALID_SUPERCLASS)')])},
+                         notes='reads class and qualifier store only; changes the elements of the class object it is given, not '
+                               'its classname / superclass name; its documented errors are CIM_ERR_INVALID_SUPERCLASS and '
+                               'CIM_ERR_INVALID_PARAMETER (bounded: C12)')
+NEWNAME = 'NewClass.classname'
+CONTRACTS.append(Contract(
+    M + 'CreateClass',
+    params={'self': MAIN, 'namespace': Str, 'NewClass': Ref('CIMClass')},
+    ghosts={'g_cstore': CLS_STORE},
+    callees={'validate_namespace': validate_ns, 'get_class_store': get_cstore_m, 'get_qualifier_store': get_qstore_m,
+             'InMemoryObjectStore.object_exists': c_exists, '_validate_dependencies_exist': validate_deps,
+             '_resolve_class': resolve_class, 'InMemoryObjectStore.create': c_create},
+    ensures=[('exactly-one-write', 'self._g_cwrites == old(self._g_cwrites) + 1'),
+             ('the-class-is-stored-and-no-other-class-is-touched',
+              f'old({NEWNAME} not in g_cstore._data) and {NEWNAME} in g_cstore._data and '
+              f'same_except(g_cstore._data, old(g_cstore._data), {NEWNAME})'),
+             ('the-callers-class-object-is-not-renamed', f'{NEWNAME} == old({NEWNAME})')],
+    raises={'CIMError': Raises(post=[
+        ('repository-unchanged-when-the-call-raises',
+         'self._g_cwrites == old(self._g_cwrites) and same_except(g_cstore._data, old(g_cstore._data))'),
+        ('documented-status-codes', 'exc.status_code in (CIM_ERR_INVALID_NAMESPACE, CIM_ERR_ALREADY_EXISTS, '
+         'CIM_ERR_INVALID_PARAMETER, CIM_ERR_INVALID_SUPERCLASS)'),
+        ('ALREADY_EXISTS-only-for-an-existing-class',
+         f'implies(exc.status_code == CIM_ERR_ALREADY_EXISTS, old({NEWNAME} in g_cstore._data))'),
+        ('an-existing-class-is-refused', f'implies(old({NEWNAME} in g_cstore._data), '
+         'exc.status_code in (CIM_ERR_INVALID_NAMESPACE, CIM_ERR_ALREADY_EXISTS))')])},
+))
+
+# ModifyClass.  SHAPE (engine limits "`in` on opaque NocaseList" and "filtering comprehension over a symbolic sequence"
+# at `[inst.path for inst in instance_store.iter_values() if inst.path.classname in clns]`): the namespace holds no instance,
+# so that the CIM_ERR_CLASS_HAS_INSTANCES refusal - raised before anything is written - is not on any path examined here.
+no_instances = Contract(S + 'InMemoryObjectStore.iter_values', returns=TupleOf(), trusted=True,
+                        notes='SHAPE: no instance in the namespace')
+subclass_names_m = Contract(M + '_get_subclass_names', returns=ListOf('str'), trusted=True,
+                            notes='reads the class store only')
+c_get = Contract(S + 'InMemoryObjectStore.get', returns=Ref('CIMClass'),
+                 ensures=[('present', 'name in self._data'), ('handed-out-copy-is-isolated', 'implies(copy, fresh(result))')],
+                 raises={'KeyError': Raises(post=[('only-when-absent', 'name not in self._data')])}, notes='proved under C10')
+resolve_class_m = Contract('pywbem_mock/_resolvermixin.py::ResolverMixin._resolve_class', trusted=True,
+                           requires=[('the-class-that-is-resolved-is-a-private-copy',
+                                      'fresh(new_class) and new_class is not caller_ModifiedClass')],
+                           raises=resolve_class.raises, notes=resolve_class.notes)
+MODNAME = 'ModifiedClass.classname'
+CONTRACTS.append(Contract(
+    M + 'ModifyClass',
+    params={'self': MAIN, 'namespace': Str, 'ModifiedClass': Ref('CIMClass')},
+    ghosts={'g_cstore': CLS_STORE},
+    kinds={'inst_paths': ('ref', 'CIMInstanceName')},
+    callees={'validate_namespace': validate_ns, 'get_class_store': get_cstore_m, 'get_instance_store': get_istore_m,
+             'get_qualifier_store': get_qstore_m, 'InMemoryObjectStore.object_exists': c_exists,
+             '_get_subclass_names': subclass_names_m, 'iter_values': no_instances, 'InMemoryObjectStore.get': c_get,
+             '_validate_dependencies_exist': validate_deps, '_resolve_class': resolve_class_m,
+             'InMemoryObjectStore.update': c_update},
+    ensures=[('exactly-one-write', 'self._g_cwrites == old(self._g_cwrites) + 1'),
+             ('the-class-is-replaced-and-no-other-class-is-touched',
+              f'old({MODNAME} in g_cstore._data) and {MODNAME} in g_cstore._data and '
+              f'same_except(g_cstore._data, old(g_cstore._data), {MODNAME})'),
+             ('the-callers-class-object-is-not-renamed', f'{MODNAME} == old({MODNAME})')],
+    raises={'CIMError': Raises(post=[
+        ('repository-unchanged-when-the-call-raises',
+         'self._g_cwrites == old(self._g_cwrites) and same_except(g_cstore._data, old(g_cstore._data))'),
+        ('documented-status-codes', 'exc.status_code in (CIM_ERR_INVALID_NAMESPACE, CIM_ERR_NOT_FOUND, CIM_ERR_INVALID_PARAMETER, '
+         'CIM_ERR_CLASS_HAS_CHILDREN, CIM_ERR_CLASS_HAS_INSTANCES, CIM_ERR_INVALID_SUPERCLASS)'),
+        ('NOT_FOUND-exactly-for-a-missing-class',
+         f'implies(exc.status_code == CIM_ERR_NOT_FOUND, old({MODNAME} not in g_cstore._data)) and '
+         f'implies(old({MODNAME} not in g_cstore._data), exc.status_code in (CIM_ERR_INVALID_NAMESPACE, CIM_ERR_NOT_FOUND))')])},
+))
+
+# ================================================================ namespaces: BaseProvider.add_namespace / remove_namespace
+B = 'pywbem_mock/_baseprovider.py::BaseProvider.'
+NSPROV = dict(cimrepository=Obj('InMemoryRepository'), _g_ns_added=Int, _g_ns_removed=Int)
+BASE = Obj('BaseProvider', **NSPROV)
+NS_NOWRITE = 'self._g_ns_added == old(self._g_ns_added) and self._g_ns_removed == old(self._g_ns_removed)'
+is_interop = Contract(B + 'is_interop_namespace', returns=Bool, trusted=True,
+                      notes='compares the name with the list of valid Interop namespace names (no repository access)')
+find_interop = Contract(B + 'find_interop_namespace', returns=Opt(Str), trusted=True, notes='reads the namespace list only')
+repo_add_ns = Contract(S + 'InMemoryRepository.add_namespace', modifies=['caller_self._g_ns_added'], trusted=True,
+                       ensures=[('one-namespace-added', 'caller_self._g_ns_added == old(caller_self._g_ns_added) + 1')],
+                       raises={'ValueError': Raises(post=[('refused-changes-nothing',
+                                                           'caller_self._g_ns_added == old(caller_self._g_ns_added)')])},
+                       notes='adds the three empty stores of the namespace, or ValueError (namespace exists) before writing')
+repo_remove_ns = Contract(S + 'InMemoryRepository.remove_namespace', modifies=['caller_self._g_ns_removed'], trusted=True,
+                          ensures=[('one-namespace-removed', 'caller_self._g_ns_removed == old(caller_self._g_ns_removed) + 1')],
+                          raises={'ValueError': Raises(post=[('refused-changes-nothing',
+                                                              'caller_self._g_ns_removed == old(caller_self._g_ns_removed)')]),
+                                  'KeyError': Raises(post=[('refused-changes-nothing',
+                                                            'caller_self._g_ns_removed == old(caller_self._g_ns_removed)'),
+                                                           ('only-for-a-missing-namespace',
+                                                            'namespace not in caller_self.cimrepository._g_names')])},
+                          notes='removes the stores of the namespace; ValueError (not empty) / KeyError (does not exist) '
+                                'before writing')
+repo_namespaces = Contract(S + 'InMemoryRepository.namespaces', returns=ListOf('str'), trusted=True,
+                           ensures=[('the-names-of-the-namespaces', 'result == self._g_names')],
+                           notes='the NocaseList of namespace names, modelled as a list of names compared as given')
+CONTRACTS.append(Contract(
+    B + 'add_namespace',
+    params={'self': BASE, 'namespace': Opt(Str), 'verbose': Lit(False)},
+    callees={'is_interop_namespace': is_interop, 'find_interop_namespace': find_interop,
+             'InMemoryRepository.add_namespace': repo_add_ns},
+    ensures=[('exactly-one-namespace-added', 'self._g_ns_added == old(self._g_ns_added) + 1 and '
+              'self._g_ns_removed == old(self._g_ns_removed)')],
+    raises={'CIMError': Raises(post=[('nothing-was-written-when-the-call-raises', NS_NOWRITE),
+                                     ('always-ALREADY_EXISTS', 'exc.status_code == CIM_ERR_ALREADY_EXISTS')]),
+            'ValueError': Raises(when='namespace is None', post=[('nothing-was-written-when-the-call-raises', NS_NOWRITE)])},
+))
+BASE_R = Obj('BaseProvider', **dict(NSPROV, cimrepository=Obj('InMemoryRepository', _g_names=ListOf('str'))))
+CONTRACTS.append(Contract(
+    B + 'remove_namespace',
+    params={'self': BASE_R, 'namespace': Opt(Str), 'verbose': Lit(False)},
+    callees={'is_interop_namespace': is_interop, 'InMemoryRepository.namespaces': repo_namespaces,
+             'InMemoryRepository.remove_namespace': repo_remove_ns},
+    ghost_code={"namespace = namespace.strip('/')": 'g_ns = namespace'},     # the name without leading / trailing slashes
+    ghost_init={'g_ns': "''"},
+    ensures=[('exactly-one-namespace-removed', 'self._g_ns_removed == old(self._g_ns_removed) + 1 and '
+              'self._g_ns_added == old(self._g_ns_added)')],
+    raises={'CIMError': Raises(post=[('nothing-was-written-when-the-call-raises', NS_NOWRITE),
+                                     ('documented-status-codes', 'exc.status_code in (CIM_ERR_NOT_FOUND, '
+                                      'CIM_ERR_INVALID_NAMESPACE, CIM_ERR_NAMESPACE_NOT_EMPTY)'),
+                                     ('NOT_FOUND-exactly-for-a-missing-namespace',
+                                      '(exc.status_code == CIM_ERR_NOT_FOUND) == (g_ns not in self.cimrepository._g_names)')]),
+            'ValueError': Raises(when='namespace is None', post=[('nothing-was-written-when-the-call-raises', NS_NOWRITE)])},
+))
+
+# ================================================================ CIMNamespaceProvider (class CIM_Namespace in the Interop namespace)
+N = 'pywbem_mock/_namespaceprovider.py::CIMNamespaceProvider.'
+CLASS_SPECS['CIMInstanceName'].update({'keybindings': Ref('NocaseDict')})
+NSP = Obj('CIMNamespaceProvider', cimrepository=Obj('InMemoryRepository'), _g_ns_added=Int, _g_ns_removed=Int,
+          _g_creates=Int, _g_updates=Int, _g_deletes=Int, _g_inst_exists=Bool, _g_default_provider_refused=Bool)
+NSP_NOWRITE = NS_NOWRITE + ' and ' + NOWRITE[1]
+prov_remove_ns = Contract(B + 'remove_namespace', modifies=['self._g_ns_removed'],
+                          ensures=[('one-namespace-removed', 'self._g_ns_removed == old(self._g_ns_removed) + 1')],
+                          raises={'CIMError': Raises(post=[('refused-changes-nothing', 'self._g_ns_removed == old(self._g_ns_removed)'),
+                                                           ('code', 'exc.status_code in (CIM_ERR_NOT_FOUND, CIM_ERR_INVALID_NAMESPACE, '
+                                                            'CIM_ERR_NAMESPACE_NOT_EMPTY)')])},
+                          notes='proved above')
+inst_delete = Contract(S + 'InMemoryObjectStore.delete', modifies=['caller_self._g_deletes'],
+                       requires=[('the-request-path-is-deleted', 'name is caller_InstanceName')],
+                       ensures=[('one-delete-counted', 'caller_self._g_deletes == old(caller_self._g_deletes) + 1')],
+                       raises={'KeyError': Raises(post=[('only-when-absent', 'not caller_self._g_inst_exists'),
+                                                        ('refused-changes-nothing',
+                                                         'caller_self._g_deletes == old(caller_self._g_deletes)')])},
+                       notes='proved under C10; ghost _g_inst_exists: the instance store of InstanceName.namespace holds InstanceName')
+CONTRACTS.append(Contract(
+    N + 'DeleteInstance',
+    params={'self': NSP, 'InstanceName': Ref('CIMInstanceName')},
+    # documented: called only for the registered class; "The instance to be deleted exists in the namespace" (dispatcher, C10);
+    # the CIM_Namespace instances live in the Interop namespace, which remove_namespace() never removes
+    requires=["InstanceName.classname.lower() == 'cim_namespace'", 'self._g_inst_exists'],
+    callees={'is_interop_namespace': is_interop, 'remove_namespace': prov_remove_ns, 'get_instance_store': get_istore,
+             'InMemoryObjectStore.delete': inst_delete},
+    ensures=[('one-namespace-removed-and-one-instance-deleted',
+              'self._g_ns_removed == old(self._g_ns_removed) + 1 and self._g_deletes == old(self._g_deletes) + 1 and '
+              'self._g_ns_added == old(self._g_ns_added) and self._g_creates == old(self._g_creates) and '
+              'self._g_updates == old(self._g_updates)')],
+    raises={'CIMError': Raises(post=[('nothing-was-written-when-the-call-raises', NSP_NOWRITE),
+                                     ('documented-status-codes', 'exc.status_code in (CIM_ERR_INVALID_PARAMETER, '
+                                      'CIM_ERR_NAMESPACE_NOT_EMPTY, CIM_ERR_NOT_FOUND, CIM_ERR_INVALID_NAMESPACE)')])},
+))
+
+# CreateInstance of CIM_Namespace: own validation, then add_namespace() (if the namespace does not exist yet), then the default
+# provider's CreateInstance.  What holds: every CIMError of the provider's OWN checks and of add_namespace() comes before any write.
+# What does not hold (REFUTED_ON_THE_UNCHANGED_TREE): a refusal of the default provider comes after the namespace was added.
+NSP_C = Obj('CIMNamespaceProvider', **dict(NSP.args[1], cimrepository=Obj('InMemoryRepository', _g_names=ListOf('str'))))
+interop_names = Contract(B + 'interop_namespace_names', returns=ListOf('str'), trusted=True, notes='the valid Interop namespace names')
+inst_contains = Contract('pywbem/_cim_obj.py::CIMInstance.__contains__', returns=Bool, trusted=True)
+inst_getitem = Contract('pywbem/_cim_obj.py::CIMInstance.__getitem__', returns=Str, trusted=True,
+                        notes="inst['P']: the value of a property that is present (checked just before); Name and "
+                              'CreationClassName are string properties of CIM_Namespace (type checked by the dispatcher, C10)')
+inst_setitem = Contract('pywbem/_cim_obj.py::CIMInstance.__setitem__', trusted=True, raises={},
+                        notes='changes the private copy of the new instance only')
+path_getitem = Contract('pywbem/_cim_obj.py::CIMInstanceName.__getitem__', returns=Str, trusted=True,
+                        notes="path['Name'] of a stored CIM_Namespace instance: its key binding (a string)")
+prov_add_ns = Contract(B + 'add_namespace', modifies=['self._g_ns_added'],
+                       ensures=[('one-namespace-added', 'self._g_ns_added == old(self._g_ns_added) + 1')],
+                       raises={'CIMError': Raises(post=[('refused-changes-nothing', 'self._g_ns_added == old(self._g_ns_added)'),
+                                                        ('code', 'exc.status_code == CIM_ERR_ALREADY_EXISTS')])},
+                       notes='proved above')
+get_instances = Contract(B + '_get_instances', returns=ListOf(('ref', 'CIMInstance')), trusted=True,
+                         notes='reads the instance store only')
+default_create = Contract(
+    K + 'CreateInstance', returns=Ref('CIMInstanceName'),
+    modifies=['self._g_creates', 'self._g_default_provider_refused'],
+    ensures=[('created', 'self._g_creates >= old(self._g_creates) + 1 and '
+              'self._g_default_provider_refused == old(self._g_default_provider_refused)')],
+    raises={'CIMError': Raises(post=[('refused-changes-nothing', 'self._g_creates == old(self._g_creates)'),
+                                     ('the-default-provider-refused', 'self._g_default_provider_refused')])},
+    notes='proved above (InstanceWriteProvider.CreateInstance); the ghost flag records that the default provider refused')
+REFUSED = 'self._g_default_provider_refused'
+NS_CREATE = dict(
+    params={'self': NSP_C, 'namespace': Str, 'new_instance': Obj('CIMInstance', classname=Str)},
+    requires=[f'not {REFUSED}'],
+    callees={'is_interop_namespace': is_interop, 'interop_namespace_names': interop_names,
+             'CIMInstance.__contains__': inst_contains, 'CIMInstance.__getitem__': inst_getitem,
+             'CIMInstance.__setitem__': inst_setitem, 'CIMInstanceName.__getitem__': path_getitem,
+             'InMemoryRepository.namespaces': repo_namespaces, 'add_namespace': prov_add_ns, '_get_instances': get_instances,
+             'InstanceWriteProvider.CreateInstance': default_create},
+    loops={2: LoopSpec(target='inst', types={'inst': Ref('CIMInstance')})},
+    ghost_code={"new_namespace = new_namespace.strip('/')": 'g_new = new_namespace'},
+    ghost_init={'g_new': "''"},
+    ensures=[('the-instance-is-created-and-the-namespace-added-exactly-if-it-did-not-exist',
+              'self._g_creates >= old(self._g_creates) + 1 and self._g_ns_removed == old(self._g_ns_removed) and '
+              'self._g_ns_added == old(self._g_ns_added) + (0 if g_new in self.cimrepository._g_names else 1)')],
+)
+NS_CREATE_RAISES = {'CIMError': Raises(post=[
+    ('unless-the-default-provider-refused-nothing-was-written', f'implies(not {REFUSED}, {NSP_NOWRITE})'),
+    ('status-codes-of-the-own-checks',
+     f'implies(not {REFUSED}, exc.status_code in (CIM_ERR_INVALID_PARAMETER, CIM_ERR_ALREADY_EXISTS))')])}
+# (the KeyError of the discrepancy below is admitted HERE ONLY so that the other obligations are established on the unchanged tree)
+CONTRACTS.append(Contract(
+    N + 'CreateInstance',
+    raises=dict(NS_CREATE_RAISES, KeyError=Raises(post=[('nothing-was-written-when-the-call-raises', NSP_NOWRITE)])),
+    **NS_CREATE))
+REFUTED_ON_THE_UNCHANGED_TREE.append(Contract(
+    N + 'CreateInstance', label='only-CIMError-escapes', raises=NS_CREATE_RAISES,
+    **dict(NS_CREATE, notes=(
+        "GENUINE DISCREPANCY (new): a CreationClassName that does not match the class name is documented as "
+        "CIM_ERR_INVALID_PARAMETER, but the message template has the field '{2|A}' (for '{2!A}'): _format() raises "
+        "KeyError('2|A') and that escapes instead of the CIMError (refuted obligation: raises:KeyError@_format('Cannot create "
+        "instance of class {0!A} in namespace {1!A}: ...); nothing has been written at that point. Reproducer: namespace "
+        "provider registered in 'interop', CreateInstance(CIMInstance('CIM_Namespace', properties={..., "
+        "'CreationClassName': 'Wrong', 'Name': 'newns'}), namespace='interop') -> KeyError('2|A')"))))
+REFUTED_ON_THE_UNCHANGED_TREE.append(Contract(
+    N + 'CreateInstance', label='refusal-of-the-default-provider-not-excluded',
+    raises={'CIMError': Raises(post=[('nothing-was-written-when-the-call-raises', NSP_NOWRITE)])},
+    **dict(NS_CREATE, notes=(
+        'add_namespace() runs before super().CreateInstance(): when the default provider refuses (key property missing: '
+        'CIM_ERR_INVALID_PARAMETER; instance exists: CIM_ERR_ALREADY_EXISTS) the new namespace stays - known findings '
+        'known:CreateInstance-CIM_Namespace-key-missing-namespace-kept and '
+        'known:CreateInstance-CIM_Namespace-instance-exists-namespace-kept of the bounded stand-in'))))
